@@ -30,7 +30,20 @@ import (
 // locals), "return" (values), "loop"/"endloop", "branch", "tcase" (type-switch clause).
 
 type nctx struct {
-	funcs map[string]*ast.FuncDecl // "Recv.Name" and "Name" -> declaration
+	funcs    map[string]*ast.FuncDecl // "Recv.Name" and "Name" -> declaration
+	noInline map[string]bool          // callees never expanded (by function name)
+}
+
+// without returns a copy of the context that does not expand calls of the named functions.
+func (c *nctx) without(names ...string) *nctx {
+	n := &nctx{funcs: c.funcs, noInline: map[string]bool{}}
+	for k := range c.noInline {
+		n.noInline[k] = true
+	}
+	for _, k := range names {
+		n.noInline[k] = true
+	}
+	return n
 }
 
 func newNctx(decls []*ast.FuncDecl) *nctx {
@@ -100,12 +113,23 @@ func (e *nenum) endIteration() {
 
 // normPaths enumerates the normalised paths of fd's body (nil on overflow).
 func (c *nctx) normPaths(fd *ast.FuncDecl) []bpath {
+	p, _ := c.normPathsNamed(fd)
+	return p
+}
+
+// normPathsNamed also returns the numbering of fd's own multi-definition locals (name -> $n).
+func (c *nctx) normPathsNamed(fd *ast.FuncDecl) ([]bpath, map[string]string) {
 	if fd == nil || fd.Body == nil {
-		return nil
+		return nil, nil
 	}
 	n := 0
 	e := &nenum{c: c, cur: []nstate{{}}, counter: &n, inlining: map[*ast.FuncDecl]bool{fd: true}}
 	fr := e.newFrame(fd, nil, nil)
+	paths := e.runTop(fr, fd)
+	return paths, fr.multi
+}
+
+func (e *nenum) runTop(fr *nframe, fd *ast.FuncDecl) []bpath {
 	e.stmts(fr, fd.Body.List)
 	if e.overflow {
 		return nil
@@ -114,8 +138,23 @@ func (c *nctx) normPaths(fd *ast.FuncDecl) []bpath {
 	for _, s := range e.cur {
 		out = append(out, s.p)
 	}
-	for i := range out {
-		out[i] = propagate(out[i])
+	return propagateAll(out)
+}
+
+// propagateAll propagates values along every path and drops the paths that became infeasible (a fact reads false).
+func propagateAll(in []bpath) []bpath {
+	var out []bpath
+	for _, p := range in {
+		q := propagate(p)
+		feasible := true
+		for _, e := range q {
+			if e.Kind == "+" && (e.Text == "false" || e.Text == "!true") {
+				feasible = false
+			}
+		}
+		if feasible {
+			out = append(out, q)
+		}
 	}
 	return out
 }
@@ -221,10 +260,19 @@ func (c *nctx) normBlock(fd *ast.FuncDecl, list []ast.Stmt) []bpath {
 					e.depth++
 					e.bindFor(fr, x)
 				}
+			case *ast.TypeSwitchStmt:
+				// the variable bound by an enclosing type switch is the switched value
+				if as, ok := x.Assign.(*ast.AssignStmt); ok && x.Body.Pos() <= pos && pos < x.Body.End() {
+					if ta, ok := as.Rhs[0].(*ast.TypeAssertExpr); ok {
+						if b := nospace(as.Lhs[0]); b != "_" {
+							fr.subst[b] = e.render(fr, ta.X)
+						}
+					}
+				}
 			}
 			return true
 		})
-		e.depth = 0 // breaks/continues of the block end the path
+		e.baseDepth = e.depth // breaks/continues of the block itself end the path
 	}
 	e.stmts(fr, list)
 	if e.overflow {
@@ -234,10 +282,7 @@ func (c *nctx) normBlock(fd *ast.FuncDecl, list []ast.Stmt) []bpath {
 	for _, s := range e.cur {
 		out = append(out, s.p)
 	}
-	for i := range out {
-		out[i] = propagate(out[i])
-	}
-	return out
+	return propagateAll(out)
 }
 
 func (e *nenum) newFrame(fd *ast.FuncDecl, parent *nframe, subst map[string]string) *nframe {
@@ -279,6 +324,11 @@ func (e *nenum) newFrame(fd *ast.FuncDecl, parent *nframe, subst map[string]stri
 		case *ast.FuncLit:
 			return false
 		case *ast.AssignStmt:
+			if len(x.Rhs) == 1 {
+				if ta, ok := x.Rhs[0].(*ast.TypeAssertExpr); ok && ta.Type == nil {
+					return true // `switch v := x.(type)`: v is bound per clause (substituted by the switched value)
+				}
+			}
 			for i, l := range x.Lhs {
 				id, ok := l.(*ast.Ident)
 				if !ok {
@@ -607,25 +657,29 @@ func (e *nenum) helperOf(fr *nframe, ce *ast.CallExpr) *ast.FuncDecl {
 			}
 		}
 	}
-	if d == nil || d.Body == nil || e.inlining[d] || fr.level >= 3 {
+	if d == nil || d.Body == nil || e.inlining[d] || fr.level >= 3 || e.c.noInline[d.Name.Name] {
 		return nil
 	}
 	// small, and free of constructs the substitution cannot carry
 	nst := 0
 	okBody := true
 	ast.Inspect(d.Body, func(n ast.Node) bool {
-		switch n.(type) {
+		switch x := n.(type) {
 		case ast.Stmt:
 			nst++
 		case *ast.FuncLit:
 			okBody = false
+		case *ast.CallExpr:
+			if callSel(x) == d.Name.Name {
+				okBody = false // recursive: a traversal, not a helper
+			}
 		}
 		if ds, ok := n.(*ast.DeferStmt); ok && ds != nil {
 			okBody = false
 		}
 		return true
 	})
-	if !okBody || nst > 40 {
+	if !okBody || nst > 30 {
 		return nil
 	}
 	if d.Type.Params != nil {
@@ -886,8 +940,8 @@ func (e *nenum) stmt(fr *nframe, s ast.Stmt) {
 		e.stmts(fr, x.Body.List)
 		thenArm := e.cur
 		e.cur = e.clone(before)
-		// the negation of a conjunction is a disjunction: one fact
-		e.add(pev{"+", e.cond(fr, x.Cond, true), x})
+		// the negated condition in normal form: a conjunction (negated disjunction) is split like any other
+		e.addFacts(e.cond(fr, x.Cond, true), x)
 		if x.Else != nil {
 			e.stmt(fr, x.Else)
 		}
@@ -1219,5 +1273,47 @@ func (p bpath) texts(kind string) []string {
 func sortedCopy(s []string) []string {
 	out := append([]string{}, s...)
 	sort.Strings(out)
+	return out
+}
+
+var groupParenRe = regexp.MustCompile(`(^|[^A-Za-z0-9_\]\)])\(([A-Za-z_$#][A-Za-z_0-9.$#\[\]]*)\)`)
+var assertRe = regexp.MustCompile(`\.\(\*?[A-Za-z_][A-Za-z_0-9.]*\)`)
+
+// stripAsserts removes type assertions (and the parentheses they needed) from a rendered expression:
+// (expr.(*RuleRefExpr)).Name.Val -> expr.Name.Val. The asserted type is a fact of the path, not part of the value.
+func stripAsserts(s string) string {
+	for {
+		t := assertRe.ReplaceAllString(s, "")
+		// a grouping parenthesis around a plain operand: (ident) -> ident (never the parentheses of a call)
+		t = groupParenRe.ReplaceAllString(t, "${1}${2}")
+		if t == s {
+			return s
+		}
+		s = t
+	}
+}
+
+// resolveAliases rewrites, along a path, stores through a numbered local that was installed into a container
+// (`set C[k]=$n` … `set $n[j]=v`) as stores into the container element (`set C[k][j]=v`).
+func resolveAliases(p bpath) bpath {
+	alias := map[string]string{}
+	out := make(bpath, 0, len(p))
+	for _, e := range p {
+		ne := e
+		if e.Kind == "set" {
+			if i := strings.Index(e.Text, "="); i > 0 {
+				lhs, rhs := e.Text[:i], e.Text[i+1:]
+				if dollarRe.MatchString(rhs) && dollarRe.FindString(rhs) == rhs && !strings.HasPrefix(lhs, "$") {
+					alias[rhs] = lhs
+				}
+				for a, t := range alias {
+					if strings.HasPrefix(lhs, a+"[") || strings.HasPrefix(lhs, a+".") {
+						ne.Text = t + lhs[len(a):] + "=" + rhs
+					}
+				}
+			}
+		}
+		out = append(out, ne)
+	}
 	return out
 }
